@@ -511,3 +511,5 @@ def run(rep):
     planner_fns = [f for f in F.functions if f.file.endswith('.cpp') and ('/geometric/planners/' in f.file or '/multilevel/' in f.file)]
     c03.r03b(rep, F, planner_fns, rule='R01g', frozen=18)
     r01h(rep, F)
+    from rules import c02
+    c02.r02f(rep, F, files_pat='/geometric/planners/', rule='R01i', frozen=10)
